@@ -9,7 +9,7 @@ import (
 // ---- decoders are dependency code: arbitrary result -----------------------------------------
 
 func zzDecodeResult() ([]byte, error) {
-	if vBool("decodefails") {
+	if vCase("decodefails", 0, 1) == 1 {
 		return nil, errors.New("decode error")
 	}
 	switch vCase("decodedlen", 0, 2) {
@@ -26,7 +26,7 @@ type zzEnc struct{}
 func zzStubB64Decode(e interface{}, s string) ([]byte, error) { return zzDecodeResult() }
 func zzStubHexDecode(s string) ([]byte, error)                { return zzDecodeResult() }
 func zzStubNewHashFromStr(s string) (*chainhash.Hash, error) {
-	if vBool("hashfails") {
+	if vCase("hashfails", 0, 1) == 1 {
 		return nil, errors.New("bad hash string")
 	}
 	return &chainhash.Hash{}, nil
@@ -77,3 +77,6 @@ func ZZ_C08_convert() {
 	}
 	vReach("end")
 }
+
+func zzStubB64Encode(e interface{}, b []byte) string { return "b64" }
+func zzStubHexEncode(b []byte) string                 { return "hex" }
